@@ -182,6 +182,12 @@ def partition(ctx: Ctx, progress: bool = True):
             return "partition helper"
         if f.relpath.startswith("nrel/hive/resources"):
             return "mock"
+        if not progress and f.relpath == RT and f.qualname == "traverse" and isinstance(s.node, ast.Call):
+            # (C07 / C19 use) handing the WHOLE plan back untouched is as consistent with the vehicle's position as handing back nothing
+            plan = f.params[0]
+            kws = {k.arg: flow.dump(k.value) for k in s.node.keywords if k.arg in ("remaining_route", "experienced_route")}
+            if kws and all((k == "remaining_route" and v == plan) or (k == "experienced_route" and v == "()") for k, v in kws.items()):
+                return "the whole plan handed back"
         return None
     for fld in ("remaining_route", "experienced_route"):
         rules.rule_field_writers(ctx, "D2", fld, _ok_w, f"RouteTraversal.{fld} grows only through add_traversal / add_link_not_traversed", 1)
